@@ -74,6 +74,11 @@ var rtVersions = []string{
 	// like a scalar counter's; the gauge's from its first update), and the same with a comment-only edit
 	"histogram h buckets 1, 2, 4\ngauge g\ncounter lseen\n/^(\\w+)$/ {\n  h = len($1)\n  g++\n}\nlseen++\n",
 	"histogram h buckets 1, 2, 4\ngauge g\ncounter lseen\n/^(\\w+)$/ {\n  h = len($1)\n  g++\n}\nlseen++\n# edited\n",
+	// 20: version 18 with other bucket boundaries, the declaration where it was: the histogram starts afresh
+	"histogram h buckets 10, 20, 40\ngauge g\ncounter lseen\n/^(\\w+)$/ {\n  h = len($1)\n  g++\n}\nlseen++\n",
+	// 21, 22: one exported name under two store names (a hyphen is exported as an underscore)
+	"counter lat as \"lat-ms\" by k\ncounter lseen\n/^(\\w+)$/ {\n  lat[$1]++\n}\nlseen++\n",
+	"counter lat_ms by k\ncounter lseen\n/^(\\w+)$/ {\n  lat_ms[$1]++\n}\nlseen++\n",
 }
 
 type rtDecl struct {
@@ -83,6 +88,7 @@ type rtDecl struct {
 	pos       string
 	hidden    bool
 	effect    int
+	buckets   string
 }
 
 type rtVersion struct {
@@ -105,6 +111,9 @@ func rtCatalogue() []rtVersion {
 				v.compiles = true
 				for _, m := range obj.Metrics {
 					d := rtDecl{name: m.Name, kind: int(m.Kind), typ: int(m.Type), keys: m.Keys, hidden: m.Hidden}
+					if len(m.Buckets) > 0 {
+						d.buckets = fmt.Sprint(m.Buckets)
+					}
 					d.pos = strings.TrimPrefix(m.Source, "X:")
 					d.effect = 1
 					if m.Name == "lseen" {
@@ -125,7 +134,7 @@ func rtEncodeCatalogue() string {
 	for _, v := range rtCatalogue() {
 		var ds []string
 		for _, d := range v.decls {
-			ds = append(ds, strings.Join([]string{hx(d.name), strconv.Itoa(d.kind), strconv.Itoa(d.typ), hxs(d.keys), hx(d.pos), strconv.Itoa(b2i(d.hidden)), strconv.Itoa(d.effect)}, "/"))
+			ds = append(ds, strings.Join([]string{hx(d.name), strconv.Itoa(d.kind), strconv.Itoa(d.typ), hxs(d.keys), hx(d.pos), strconv.Itoa(b2i(d.hidden)), strconv.Itoa(d.effect), hx(d.buckets)}, "/"))
 		}
 		dd := strings.Join(ds, "+")
 		if dd == "" {
